@@ -1,4 +1,5 @@
 import Gopki.Model.Merge
+import Gopki.Model.Generator
 /-! # C08 — profile merging follows the documented inheritance and override rules
 
 `Merge.merge` mirrors the two Go loops of `config.Merge` including the `handled` / `overridden`
@@ -54,6 +55,33 @@ theorem C08_no_shared_oid (prof : List PExt) (c : List Ext)
 theorem C08_empty_profile (c : List Ext) : merge [] c = c := by
   have := C08_no_shared_oid [] c (by intro p hp; simp at hp)
   simpa using this
+
+/-- a content-less extension left in the effective list makes signing fail with an error; it is never
+    emitted empty and never silently dropped -/
+theorem C08_override_needed_fails (ctx : Gen.Context) (iss : Gen.IssuerContext) (alg : Nat)
+    (h : Config.Builder.overrideNeeded ∈ ctx.builders) : ∃ e, Gen.signBody ctx iss alg = .error e := by
+  unfold Gen.signBody
+  split
+  · exact ⟨_, rfl⟩
+  · split
+    · exact ⟨_, rfl⟩
+    · have hm : ∃ e, ctx.builders.mapM (Gen.compile · ctx iss) = .error e := by
+        generalize ctx.builders = bs at h
+        induction bs with
+        | nil => simp at h
+        | cons b bs ih =>
+          simp only [List.mapM_cons, bind, Except.bind]
+          rcases List.mem_cons.mp h with rfl | hm
+          · exact ⟨_, rfl⟩
+          · cases Gen.compile b ctx iss with
+            | error e => exact ⟨e, rfl⟩
+            | ok x =>
+              obtain ⟨e, he⟩ := ih hm
+              simp only [he]
+              exact ⟨e, rfl⟩
+      obtain ⟨e, he⟩ := hm
+      simp only [he]
+      exact ⟨e, rfl⟩
 
 /-! non-vacuity: the documentation's example (identical extension not duplicated, override placed,
     optional skipped) evaluated by the kernel -/
